@@ -42,6 +42,9 @@ type Options struct {
 	// names are read-only. Used down to depth 1.
 	Args      func(mt reflect.Type, variant int) ([]reflect.Value, bool)
 	ArgMethod func(name string) bool
+	// SelfEquals also calls Equals / Equal of every object with the object
+	// itself as the argument.
+	SelfEquals bool
 }
 
 // BaseDeny is excluded in every world: mutators, generators, and methods that
@@ -293,6 +296,41 @@ func dumpObject(sb *strings.Builder, pv reflect.Value, opt *Options, depth int, 
 				}()
 				sb.WriteString(";")
 				part(sb, opt, depth, fmt.Sprintf("%s(args%d)", m.Name, variant), at)
+			}
+			continue
+		}
+		if opt.SelfEquals && m.IsExported() && (m.Name == "Equals" || m.Name == "Equal") && m.Type.NumIn() == 2 && m.Type.NumOut() > 0 && !opt.denied(name, m.Name) {
+			// x.Equals(x): a comparison is a read-only call with an argument of the
+			// value's own type; comparing a value with itself needs no twin and
+			// reaches the nested objects too
+			var arg reflect.Value
+			switch m.Type.In(1) {
+			case pt:
+				arg = pv
+			case et:
+				arg = pv.Elem()
+			}
+			if arg.IsValid() {
+				at := sb.Len()
+				sb.WriteString(m.Name + "(self)=")
+				func() {
+					defer func() {
+						if r := recover(); r != nil {
+							sb.WriteString("panic")
+							if opt.OnPanic != nil {
+								opt.OnPanic(name+"."+m.Name, r)
+							}
+						}
+					}()
+					for j, out := range pv.Method(i).Call([]reflect.Value{arg}) {
+						if j > 0 {
+							sb.WriteString(",")
+						}
+						dump(sb, out, opt, depth+1, seen)
+					}
+				}()
+				sb.WriteString(";")
+				part(sb, opt, depth, m.Name+"(self)", at)
 			}
 			continue
 		}
